@@ -36,10 +36,11 @@ def liftD {α} : Except DictErr α → Except Err α
 
 /-! ## Key forming (`StorageKeyFormingConvention`) -/
 
-/-- `make_safe_key`: `/`→`.`, `<`→`_`, `>`→`_` (the three replacements do not feed each other,
-    so the sequential `str.replace` chain is a character map). -/
+/-- `make_safe_key`: `/`→`.`, `<`→`_`, `>`→`_`, `:`→`_` (the last since kopf f95b306: kopf's own ids
+    of lambdas are `lambda:<path>:<line>`). The replacements do not feed each other, so the
+    sequential `str.replace` chain is a character map. -/
 def safeChar (c : Char) : Char :=
-  if c = '/' then '.' else if c = '<' then '_' else if c = '>' then '_' else c
+  if c = '/' then '.' else if c = '<' then '_' else if c = '>' then '_' else if c = ':' then '_' else c
 
 def safeKey (k : Str) : Str := k.map safeChar
 
